@@ -637,6 +637,7 @@ func runWorkflow20(c CaseC20) *result20 {
 	compiledOK := false
 	hasEntry, hasExit := false, false
 	var deferred []func()
+	wfData, wfCtl := map[string]bool{}, map[string]bool{}
 	for _, op := range c.Ops {
 		switch op.K {
 		case "node":
@@ -719,6 +720,20 @@ func runWorkflow20(c CaseC20) *result20 {
 					}
 					if op.A == "end" {
 						viol("END as source")
+					}
+					// the same pair connected twice: a second data connection (input after input / data-only input)
+					// or a second control connection (input or dependency after input or dependency)
+					pair := op.A + "->" + op.B
+					data := op.K == "input"
+					ctl := op.K == "dep" || (op.K == "input" && op.Flav != "nocontrol")
+					if (data && wfData[pair]) || (ctl && wfCtl[pair]) {
+						viol("duplicate edge")
+					}
+					if data {
+						wfData[pair] = true
+					}
+					if ctl {
+						wfCtl[pair] = true
 					}
 					fromOK = true
 					if fromOK || op.A == "start" {
@@ -1158,6 +1173,33 @@ func genC20(t *rapid.T) CaseC20 {
 			}
 		}
 	case "workflow":
+		if rapid.IntRange(0, 7).Draw(t, "doubleConnection") == 0 {
+			// a well-formed workflow in which one pair of nodes is connected twice, in every combination of
+			// plain input / data-only input / dependency, the two inputs mapped to different fields
+			flav := func(l string) Op20 {
+				switch rapid.IntRange(0, 2).Draw(t, l) {
+				case 0:
+					return Op20{K: "input", A: "a", B: "b"}
+				case 1:
+					return Op20{K: "input", A: "a", B: "b", Flav: "nocontrol"}
+				}
+				return Op20{K: "dep", A: "a", B: "b"}
+			}
+			first, second := flav("first"), flav("second")
+			if first.K == "input" {
+				first.Map = "k"
+			}
+			if second.K == "input" {
+				second.Map = "k2"
+			}
+			c.Ops = append(c.Ops, Op20{K: "node", A: "a", Kind: "lambda"}, Op20{K: "node", A: "b", Kind: "map"},
+				Op20{K: "input", A: "start", B: "a"}, first, second, Op20{K: "input", A: "b", B: "end"})
+			if first.K != "input" && second.K != "input" {
+				c.Ops = append(c.Ops, Op20{K: "input", A: "start", B: "b", Map: "k", Flav: "nocontrol"})
+			}
+			c.Ops = append(c.Ops, Op20{K: "compile"})
+			return c
+		}
 		continueSkeleton := true
 		if !wild {
 			switch rapid.IntRange(0, 3).Draw(t, "skeleton") {
